@@ -207,6 +207,23 @@ def r2_lme(ctx):
     is_fit = fit_def.startswith("MixedLM(") and fit_def.endswith(".fit(**$0.sm_fit_parameters)")
     ok = bool(fit_txt) and is_fit and stored.get("fe_params") == fit_txt + ".fe_params"
     ctx.check(ok, "C20.R2", fit, fit.node, "C = inverse of the fitted unscaled random-effects covariance; fe = fitted fixed effects", "stored variance components / fixed effects changed", construct="stored components")
+    # the other documented components: residual standard deviation = square root of statsmodels' scale (a variance), covariance of the random effects
+    if fit_txt and is_fit:
+        ns = stored.get("noise_std", "")
+        ok_ns = ns in (fit_txt + ".scale ** 0.5", "np.sqrt(" + fit_txt + ".scale)", "math.sqrt(" + fit_txt + ".scale)", fit_txt + ".scale ** (1 / 2)")
+        ctx.check(ok_ns, "C20.R2", fit, fit.node, "noise_std = sqrt(scale of the fitted mixed model)", f"the stored noise_std is `{ns.replace(fit_txt, '<fit>')[:80]}`, not the square root of the fitted scale (a variance)",
+                  construct="stored noise_std")
+        ctx.check(stored.get("cov_re") == fit_txt + ".cov_re", "C20.R2", fit, fit.node, "cov_re = fitted covariance of the random effects", "the stored cov_re is not the fitted covariance of the random effects",
+                  construct="stored cov_re")
+    # the documented option "independent random effects" constrains the fitted covariance to a diagonal pattern
+    b_ind = unify(fl, ["if $0.force_independent_random_effects", "$0.sm_fit_parameters['free'] = MixedLMParams.from_components(fe_params=np.ones(2), cov_re=np.eye(2))"])
+    ok_ind = b_ind is not None and b_ind["#0"] < b_ind["#1"]
+    has_opt = any(isinstance(x, ast.Attribute) and x.attr == "force_independent_random_effects" for f_ in ix.iter_funcs() if f_.mod == LF for x in ast.walk(f_.node))
+    if has_opt:
+        ctx.form("C20.R2", fit, fit.node, "; ".join(ln for ln in fl if (ln.startswith("if ") and "force_independent_random_effects" in ln) or ln.startswith("$0.sm_fit_parameters['free']")),
+                 {"if $0.force_independent_random_effects; $0.sm_fit_parameters['free'] = MixedLMParams.from_components(fe_params=np.ones(2), cov_re=np.eye(2))"} if ok_ind else set(),
+                 ["$0.force_independent_random_effects", "sm_fit_parameters['free']", "cov_re=np.eye(2)"], "independent random effects: the free-parameter pattern has a diagonal covariance",
+                 "the option force_independent_random_effects no longer constrains the covariance of the random effects to be diagonal", construct="independent random effects")
     # random effects
     g = ix.func(LP, "LMEPersonalizeAlgorithm._generic_get_random_effects", "C20.R2")
     cg = Canon(g.node)
